@@ -7,7 +7,7 @@ CONSTANTS
   Q = 8
   ThinLin = 400
   ThinIdent = 10
-  ThinDov = 6
+  ThinDov = 12
   ThinFit = 60
   Emit = TRUE
 INVARIANTS Theorems Vector
